@@ -165,124 +165,4 @@ theorem Kinds.appendBeforeSibling {d d' : Dom} (hk : Kinds d) {s : Id} {ch : Nod
     simp only [Dom.childOk, Bool.and_eq_true] at hc
     exact hk.insertAtIndex hc.2.1.1 (isInsertable_not_doc hc.2.1.2.1.1) hm
 
-theorem Kinds.applyV_asCode {d d' : Dom} {op : SinkOp} {out : Output} (hw : WF d) (hk : Kinds d)
-    (hc : d.contractOk op = true) (h : d.applyV .asCode op = .ok (d', out)) : Kinds d' := by
-  cases op with
-  | parseError msg =>
-    simp [Dom.applyV] at h; obtain ⟨h, _⟩ := h; subst h
-    exact hk.sameData (fun _ => rfl) (fun _ _ => rfl)
-  | getDocument => simp [Dom.applyV] at h; obtain ⟨h, _⟩ := h; subst h; exact hk
-  | elemName t =>
-    simp only [Dom.applyV, bind, Except.bind] at h
-    cases he : d.elemName t with
-    | error e => simp [he] at h
-    | ok v => simp [he] at h; obtain ⟨h, _⟩ := h; subst h; exact hk
-  | createElement name attrs flags =>
-    simp [Dom.applyV] at h; obtain ⟨h, _⟩ := h; subst h
-    unfold Dom.createElement
-    split
-    · exact (hk.alloc _).alloc _
-    · exact hk.alloc _
-  | createComment text =>
-    simp [Dom.applyV, Dom.createComment] at h; obtain ⟨h, _⟩ := h; subst h; exact hk.alloc _
-  | createPi t dd =>
-    simp [Dom.applyV, Dom.createPi] at h; obtain ⟨h, _⟩ := h; subst h; exact hk.alloc _
-  | append p c =>
-    simp only [Dom.applyV, bind, Except.bind] at h
-    cases ha : d.append p c with
-    | error e => simp [ha] at h
-    | ok d1 =>
-      simp [ha] at h; obtain ⟨h, _⟩ := h; subst h
-      exact hk.append (by simpa [Dom.contractOk] using hc) ha
-  | appendBasedOnParentNode e p c =>
-    simp only [Dom.applyV, bind, Except.bind] at h
-    cases ha : d.appendBasedOnParentNode e p c with
-    | error err => simp [ha] at h
-    | ok d1 =>
-      simp [ha] at h; obtain ⟨h, _⟩ := h; subst h
-      simp only [Dom.contractOk, Bool.and_eq_true] at hc
-      have := appendBasedOnParentNode_eq ha (lt_of_isElement hc.1.1)
-      by_cases hp : (d.parentOf e).isSome = true
-      · simp only [hp, if_true] at this hc
-        exact hk.appendBeforeSibling hc.2 this.symm
-      · simp only [hp] at this hc
-        exact hk.append hc.2 this.symm
-  | appendDoctypeToDocument n p s =>
-    simp only [Dom.applyV, bind, Except.bind, Dom.appendDoctypeToDocument] at h
-    cases ha : (d.alloc (NodeData.doctype n p s)).1.appendRaw Dom.document (d.alloc (NodeData.doctype n p s)).2 with
-    | error err => simp [ha] at h
-    | ok d1 =>
-      simp [ha] at h; obtain ⟨h, _⟩ := h; subst h
-      rw [alloc_id] at ha
-      simp only [Dom.contractOk, Bool.and_eq_true] at hc
-      obtain ⟨hp', _, hd, _, _⟩ := allocAppend_ok (lt_of_isContainer hc.1) ha
-      exact hk.allocAttach hp' hd hc.1 (by intro e; cases e)
-  | markScriptAlreadyStarted n => simp [Dom.applyV] at h; obtain ⟨h, _⟩ := h; subst h; exact hk
-  | pop n => simp [Dom.applyV] at h; obtain ⟨h, _⟩ := h; subst h; exact hk
-  | getTemplateContents t =>
-    simp only [Dom.applyV, bind, Except.bind] at h
-    cases he : d.getTemplateContents t with
-    | error e => simp [he] at h
-    | ok v => simp [he] at h; obtain ⟨h, _⟩ := h; subst h; exact hk
-  | sameNode x y => simp [Dom.applyV] at h; obtain ⟨h, _⟩ := h; subst h; exact hk
-  | setQuirksMode m =>
-    simp [Dom.applyV] at h; obtain ⟨h, _⟩ := h; subst h
-    exact hk.sameData (fun _ => rfl) (fun _ _ => rfl)
-  | appendBeforeSibling s c =>
-    simp only [Dom.applyV, bind, Except.bind] at h
-    cases ha : d.appendBeforeSibling s c with
-    | error e => simp [ha] at h
-    | ok d1 =>
-      simp [ha] at h; obtain ⟨h, _⟩ := h; subst h
-      exact hk.appendBeforeSibling (by simpa [Dom.contractOk] using hc) ha
-  | addAttrsIfMissing t a =>
-    simp only [Dom.applyV, bind, Except.bind] at h
-    cases ha : d.addAttrsIfMissing t a with
-    | error e => simp [ha] at h
-    | ok d1 =>
-      simp [ha] at h; obtain ⟨h, _⟩ := h; subst h
-      obtain ⟨_, _, _, _, hdt, hs, hd, _⟩ := addAttrsIfMissing_ok ha
-      refine hk.dataChange (t := t) hs (fun x hx => by rw [hd]; simp [hx]) ?_ ?_
-      · unfold Dom.isContainer; rw [hd, hdt]; simp
-      · rw [hd]; simp
-  | associateWithForm _ _ _ _ => simp [Dom.applyV] at h; obtain ⟨h, _⟩ := h; subst h; exact hk
-  | removeFromParent t =>
-    simp only [Dom.applyV, bind, Except.bind] at h
-    cases ha : d.removeFromParent t with
-    | error e => simp [ha] at h
-    | ok d1 => simp [ha] at h; obtain ⟨h, _⟩ := h; subst h; exact hk.removeFromParent ha
-  | reparentChildren n np =>
-    simp only [Dom.applyV, bind, Except.bind] at h
-    cases ha : d.reparentChildren n np with
-    | error e => simp [ha] at h
-    | ok d1 =>
-      simp [ha] at h; obtain ⟨h, _⟩ := h; subst h
-      simp only [Dom.contractOk, Bool.and_eq_true, Bool.not_eq_true'] at hc
-      obtain ⟨_, _, _, hp, _, hd, _, _⟩ := reparentChildren_ok ha
-      refine hk.of_effects ?_ ?_ ?_
-      · intro x hx; rw [isContainer_congr (hd x)]; exact hx
-      · intro x _ hh; rw [← hd x]; exact hh
-      · intro c p' hh
-        rw [hp] at hh
-        by_cases hcn : c ∈ d.childrenOf n
-        · simp [hcn] at hh; subst hh
-          refine Or.inr ⟨by rw [isContainer_congr (hd _)]; exact hc.1.2, ?_⟩
-          rw [hd]; exact hk.childNotDoc c n ((hw.links c n).mpr hcn)
-        · simp [hcn] at hh; exact Or.inl hh
-  | isMathmlAnnotationXmlIntegrationPoint t =>
-    simp only [Dom.applyV, bind, Except.bind] at h
-    cases he : d.isMathmlAnnotationXmlIntegrationPoint t with
-    | error e => simp [he] at h
-    | ok v => simp [he] at h; obtain ⟨h, _⟩ := h; subst h; exact hk
-  | setCurrentLine _ => simp [Dom.applyV] at h; obtain ⟨h, _⟩ := h; subst h; exact hk
-  | allowDeclarativeShadowRoots _ => simp [Dom.applyV] at h; obtain ⟨h, _⟩ := h; subst h; exact hk
-  | attachDeclarativeShadow _ _ _ => simp [Dom.applyV] at h; obtain ⟨h, _⟩ := h; subst h; exact hk
-  | maybeCloneAnOptionIntoSelectedcontent o =>
-    simp only [Dom.applyV, bind, Except.bind] at h
-    cases ha : d.maybeCloneOption .asCode o with
-    | error e => simp [ha] at h
-    | ok d1 =>
-      simp [ha] at h; obtain ⟨h, _⟩ := h; subst h
-      rw [maybeCloneOption_asCode_eq ha]; exact hk
-
 end H5V.Lemmas.Dom
